@@ -31,6 +31,8 @@ def fix_case(case):
         case['pform'] = {int(k): {'pos': list(v.get('pos', ())), 'kw': list(v.get('kw', ()))} for k, v in case['pform'].items()}
     if 'explicit' in case:
         case['explicit'] = fix_case(case['explicit'])
+    if case.get('foralls'):
+        case['foralls'] = [(list(us), list(cs)) for us, cs in case['foralls']]
     if 'forall' in case and case['forall']:
         case['forall'] = (case['forall'][0], list(case['forall'][1]))
     return case
